@@ -48,6 +48,18 @@ CHECKS += [
            "machine-checked; neighbour symmetry is C01"),
 ]
 
+CHECKS += [
+ dict(id='C19',
+      text="Proof for particle-array lists of ANY length: the loops of _get_dt_adapt_factors, _get_explicit_dt_adapt and "
+           "compute_h_minimum are cut with quantified prefix invariants (not larger than any array seen AND attained by "
+           "one), compute_time_step is verified modularly against those contracts for fixed_h on and off (formula, None "
+           "case, never exceeds cfl*hmin/max of any array), set_fixed_h and Solver._compute_timestep (fixed step kept on "
+           "None). Two genuine defects found by these obligations were repaired (fix: commits 49673ab, 852cb8d).",
+      note="float = R; numpy/cyarray reductions enter as ghost functions per array (max_c(j), min_adapt(j), hmin(j); "
+           "hmin of an empty carray is 0); h.minimum fresh (history assumption); CPU backend, not in_parallel; "
+           "quantifier instantiation by z3"),
+]
+
 NOT_APPLICABLE = [
  dict(property_id='C11', reason="round trip runs through numpy.savez/numpy.load/h5py and the compiled ParticleArray constructor; the repository code in between is dict/bytes glue no contract within reach can express (DESIGN.md section 4)"),
  dict(property_id='C12', reason="finite enumeration of scheme options decided by executing scheme code, generating and running; no function-level contract states it (DESIGN.md section 4)"),
@@ -55,7 +67,7 @@ NOT_APPLICABLE = [
 ]
 # properties not yet under a registered check are listed as not applicable
 # "pending" until their check lands, so the manifest is valid at all times
-PENDING = ['C01','C02','C03','C04','C05','C06','C07','C10','C14','C16','C17','C19','C20']
+PENDING = ['C01','C02','C03','C04','C05','C06','C07','C10','C14','C16','C17','C20']
 for p in PENDING:
     if p not in [c['id'] for c in CHECKS]:
         NOT_APPLICABLE.append(dict(property_id=p, reason="check not registered yet in this commit (work in progress, see DESIGN.md section 3 for the planned contracts)"))
